@@ -13,6 +13,9 @@ SubstClauses == {sv \o c \o t : c \in {<<SP, LPAREN, GT, EQ, SP, 49, DOT, 48, RP
                                         <<SP, LT, 120, GT>>, <<COLON, 97, 110, 121>>, <<SP, LPAREN, GT, EQ, SP, 49, RPAREN, SP, LBRACK>> \o amd64 \o <<RBRACK>>},
                                 t \in {<<>>, <<SP, PIPE, SP>> \o foo, <<COMMA, SP>> \o foo}}
                 \cup {foo \o <<COMMA, SP>> \o sv \o <<SP, LPAREN, LT, LT, SP, 51, RPAREN>>}
+                \* blanks before the closing bracket of a version clause, one bracket too many, empty profile groups
+                \cup {foo \o <<SP, LPAREN, GT, EQ, SP, 49, DOT, 48>> \o t : t \in {<<SP, RPAREN>>, <<SP, RPAREN, RPAREN>>, <<SP, SP, RPAREN>>, <<RPAREN, RPAREN>>, <<TAB, RPAREN>>, <<SP, 50, RPAREN>>}}
+                \cup {foo \o <<SP, LT, GT>>, foo \o <<SP, LT, SP, GT>>, foo \o <<SP, LT, 115, GT, SP, LT, SP, GT, SP, LT, BANG, 99, GT>>, foo \o <<SP, LT, BANG, GT>>}
 Degenerate == {foo \o <<SP, LBRACK, HYPHEN, HYPHEN, RBRACK>>, foo \o <<SP, LBRACK, HYPHEN, HYPHEN, SP>> \o amd64 \o <<RBRACK>>,
                foo \o <<COLON, HYPHEN, HYPHEN>>, foo \o <<SP, LBRACK, HYPHEN, RBRACK>>, foo \o <<SP, LBRACK, BANG, HYPHEN, HYPHEN, RBRACK>>,
                foo \o <<SP, LBRACK>> \o amd64 \o <<HYPHEN, HYPHEN, RBRACK>>} \cup SubstClauses
